@@ -9,7 +9,10 @@ fn str_value(rng: &mut Rng) -> String {
         0 => String::new(),
         // values are text, not paths or names: nothing is normalised on the way in
         16 => rng.pick(&["../../pkgtools/testpkg", "../../a/b", "a/b/", "./a/b", "a//b", "../../a/b/"]).to_string(),
-        17 => rng.pick(&["foo-1.0nb0", "FOO", "x86_64 ", "9223372036854775808", "-0", "+5", "1e3"]).to_string(),
+        17 => rng.pick(&["foo-1.0nb0", "FOO", "x86_64 ", "9223372036854775808", "-0", "+5", "1e3",
+            // look like things other modules parse: a digest line, a dependency, a bad pattern
+            "sha1 a4801e9b26eeb5b8bd1f54bac1c8e89dec67786a", "BLAKE2S abc", "Sha256 x", "md5 0", "SHA1",
+            "mutt-[0-9]*:../../mail/mutt", "a>=1:../../c/d", "x:y/z", "foo-[0-9", "gcc}-4.8", "old<1>0", "a>=1<2<3", "foo**"]).to_string(),
         12 => "\u{feff}bom".into(),
         13 => "nul\0in".into(),
         14 => "trail \u{3000}".into(),
@@ -537,6 +540,10 @@ fn gen_c09(tier: &str, rng: &mut Rng, emit: &mut dyn FnMut(Op)) {
                 emit(Op::new("stream.write", &[&b[..cut1], &b[cut1..cut2], &b[cut2..]]));
             }
         }
+    }
+    // streams of 1, 2 and 4 MiB written in one call and in 64 KiB pieces (compared in the harness)
+    for kib in ["1025", "2100", if thorough { "4500" } else { "1100" }] {
+        emit(Op::s("stream.big", &[kib]));
     }
     // a tiny hand-made stream with cuts inside é, €, 𐀀 and inside the separator
     let small = "BUILD_DATE=é\nCATEGORIES=€\nCOMMENT=𐀀\nDESCRIPTION=é\nMACHINE_ARCH=x\nOPSYS=x\nOS_VERSION=x\nPKGNAME=a-1\nPKGPATH=a/b\nPKGTOOLS_VERSION=1\nSIZE_PKG=1\n\n";
